@@ -601,7 +601,7 @@ func noInitPackage(path string) bool {
 // blockedPrefixes: calling into these without an intrinsic aborts the path
 // (unsupported) instead of interpreting reflection / syscalls / asm.
 var blockedPrefixes = []string{
-	"reflect", "syscall", "net", "os", "unsafe", "encoding/json", "encoding/gob", "crypto/", "runtime",
+	"reflect", "syscall", "net", "os", "unsafe", "encoding/json", "encoding/gob", "crypto/", "runtime", "math/big",
 	"github.com/tendermint/go-amino", "github.com/vmihailenco", "github.com/tendermint/iavl", "github.com/tendermint/tm-db",
 	"github.com/syndtr", "github.com/btcsuite/btcd/btcec", "github.com/ethereum/go-ethereum/crypto", "github.com/ethereum/go-ethereum/rlp",
 	"github.com/ethereum/go-ethereum/ethclient", "github.com/ethereum/go-ethereum/rpc",
